@@ -151,7 +151,26 @@ pub fn replay_update(_args: &[String]) {
                         steps_out.push(json!({"op": "U", "sign": "ok", "read": rd, "own_binding": own_binding, "media_same_len": o.len() >= cur.len()}));
                         cur = o;
                     }
-                    Err(e) => { steps_out.push(json!({"op": "U", "sign": format!("err:{}", err_kind(&e))})); return; }
+                    Err(e) => {
+                        // the Builder refuses ill-formed update manifests at signing time; sign the same definition again with
+                        // the signing-side test switched off (hook H5) so that the validator's rules are what decides
+                        let refused = format!("err:{}", err_kind(&e));
+                        let mut b2 = match Builder::from_context(ctx(&json!({"verify": {"remote_manifest_fetch": false, "verify_after_sign": false}}))).with_definition(def.to_string().as_str()) { Ok(b) => b, Err(_) => { steps_out.push(json!({"op": "U", "sign": refused})); return; } };
+                        b2.set_intent(BuilderIntent::Update);
+                        if st["extra"] == true {
+                            let ij = json!({"title": "extra", "relationship": "componentOf"}).to_string();
+                            let _ = b2.add_ingredient_from_stream(ij, "image/jpeg", &mut Cursor::new(fixture("no_manifest.jpg")));
+                        }
+                        c2pa::verif_hooks::set_skip_update_manifest_test(true);
+                        let mut d2 = Cursor::new(Vec::new());
+                        let r2 = b2.sign(signer("ed25519").as_ref(), mime, &mut Cursor::new(cur.clone()), &mut d2);
+                        c2pa::verif_hooks::set_skip_update_manifest_test(false);
+                        match r2 {
+                            Ok(_) => { let o = d2.into_inner(); steps_out.push(json!({"op": "U", "sign": refused, "forced": {"sign": "ok", "read": read(mime, &o)}})); }
+                            Err(e2) => steps_out.push(json!({"op": "U", "sign": refused, "forced": {"sign": format!("err:{}", err_kind(&e2))}})),
+                        }
+                        return;
+                    }
                 }
             }
             // content change after the last update manifest must be detected (when everything was valid so far)
